@@ -1435,7 +1435,7 @@ impl Gc {
         if !visitor.visited.insert(addr) {
             return true;
         }
-        visitor.stack.push((addr, heap));
+        visitor.stack.push((addr, heap, std::any::type_name::<T>()));
         false
     }
 
